@@ -331,6 +331,30 @@ pub fn programs_at(ks: &[usize], gaps: bool) -> Vec<(String, P)> {
 /// depth d. Each in several wire orders. Sizes up to 2^6 nodes.
 pub fn gluing_pairs(kmax: usize, dmax: usize) -> Vec<(String, P, P)> {
     let mut out = vec![];
+    // a boundary of k distinguishable wires (f feeds wire i from an operation labelled i, g consumes wire j into an
+    // operation labelled j), listed by f in order p and by g in order q, for every pair of orders (k = 3, 4) or for a
+    // few orders (k = 5, 6: identity, reversed, rotated, interior swap, interior reversed with the ends fixed)
+    for k in 3..=6usize.min(kmax.max(3)) {
+        let orders: Vec<Vec<usize>> = if k <= 4 {
+            ohmc_core::iso::all_permutations(k)
+        } else {
+            let id: Vec<usize> = (0..k).collect();
+            let mut swap = id.clone();
+            swap.swap(1, 2);
+            let mut inner = id.clone();
+            inner[1..k - 1].reverse();
+            vec![id.clone(), id.iter().rev().cloned().collect(), (0..k).map(|i| (i + 1) % k).collect(), swap, inner]
+        };
+        for (pi, p) in orders.iter().enumerate() {
+            for (qi, q) in orders.iter().enumerate() {
+                // f: nodes 0..k are inputs, k..2k the boundary wires; operation i: [i] -> [k + i]
+                let f = P { nodes: vec![0; 2 * k], edges: (0..k).map(|i| edge(i as u8, vec![i], vec![k + i])).collect(), s: (0..k).collect(), t: p.iter().map(|&i| k + i).collect() };
+                // g: nodes 0..k the boundary wires, k..2k outputs; operation j: [j] -> [k + j]
+                let g = P { nodes: vec![0; 2 * k], edges: (0..k).map(|j| edge((10 + j) as u8, vec![j], vec![k + j])).collect(), s: q.clone(), t: (k..2 * k).collect() };
+                out.push((format!("boundary-orders({},{},{})", k, pi, qi), f, g));
+            }
+        }
+    }
     let mut add = |name: String, nf: usize, ng: usize, wires: Vec<(usize, usize)>, out: &mut Vec<(String, P, P)>| {
         let orders: Vec<(&str, Vec<(usize, usize)>)> = vec![
             ("asc", wires.clone()),
